@@ -10,7 +10,7 @@ from ..e2e import MESSAGES, MSG_KEY
 
 LEVEL = "exploration"
 RULE = ("one case = one run drawn from the configuration lattice maxiter {0,1,2,3,5,50} x maxfun {1,2,3,5,8,100} x maxls {1,2,5,20} x "
-        "ftol {0,1e-12,1e-5,1e-1} x gtol {1e-9,1e-5,1e-1; float or callable} x ftarget {None, unreachable, reachable, already met; float or "
+        "ftol {0,1e-12,1e-5,1e-1} x gtol {0,1e-9,1e-5,1e-1; float or callable} x ftarget {None, unreachable, reachable, already met; float or "
         "callable} x callback {none, never stops, stops at k} on qp / qp_quartic / rosenbrock / exp_wall / rastrigin / styblinski_tang / "
         "beale problems with boxes, followed by restarts from the returned result with maxiter drawn from 0..nit+2 (below, at and above the "
         "checkpoint's nit), maxfun kept or raised, target already met or not. Every implication of the statement is evaluated on the returned "
@@ -21,7 +21,7 @@ ASSUMPTIONS = [
     "the relative-reduction premise is checked (with <=) only when a recording callback supplies the previous iterate's value",
     "reference optimum for placing reachable/unreachable targets comes from scipy's L-BFGS-B on the same problem",
 ]
-FAMS = ("qp", "qp_quartic", "rosenbrock", "exp_wall", "rastrigin", "styblinski_tang", "beale")
+FAMS = ("qp", "qp_quartic", "rosenbrock", "exp_wall", "rastrigin", "styblinski_tang", "beale", "sphere", "quartic")
 
 
 def floors(tier):
@@ -44,7 +44,7 @@ def cases(tier, seed):
             "maxfun": int(gen.pick(rng, [1, 2, 3, 5, 8, 100])),
             "maxls": int(gen.pick(rng, [1, 2, 5, 20])),
             "ftol": float(gen.pick(rng, [0.0, 1e-12, 1e-5, 1e-1])),
-            "gtol": float(gen.pick(rng, [1e-9, 1e-5, 1e-1])),
+            "gtol": float(gen.pick(rng, [0.0, 1e-9, 1e-5, 1e-1])),
             "gtol_callable": bool(rng.random() < 0.3),
             "target_kind": gen.pick(rng, [None, None, "below", "reachable", "above"]),
             "ftarget_callable": bool(rng.random() < 0.4),
